@@ -185,6 +185,11 @@ class Gateway:
         sensor = self.sensors[sensor_id]
 
         if sensor.is_smart_sleep_node:
+            # The command is built with the gateway protocol version when the node
+            # wakes up. Make sure that will work now, and refuse the value if not.
+            self.create_message_to_set_sensor_value(
+                sensor, child_id, value_type, value, **kwargs
+            )
             sensor.set_child_desired_state(child_id, value_type, value)
             return
 
